@@ -146,9 +146,14 @@ func runC02(c *core.Ctx) *core.Violation {
 	var version int
 	if big {
 		c.Sub = "chunked-hash"
+		if shiftMs == 0 && t.Choose(2) == 1 {
+			// chunked hashes are rare and expensive: give half of them a time shift, so that the per-chunk TTL path is covered
+			shiftMs = int64(t.Choose(2000001)) - 1000000
+			conf.Options.ShiftTime = time.Duration(shiftMs) * time.Millisecond
+		}
 		it := rc.Item{Kind: "key", Key: []byte("big:hash"), Val: bigHash(t), Type: rc.THash}
-		switch t.Choose(3) {
-		case 1:
+		switch t.Choose(4) {
+		case 1, 3:
 			it.ExpireMs = uint64(epochMs+shiftMs) + 1000*uint64(1+t.Choose(1000))
 		case 2:
 			it.ExpireMs = uint64(epochMs+shiftMs) - 1000*uint64(1+t.Choose(1000))
